@@ -160,8 +160,11 @@ def parse_defines(clause):
 
 def prepare_attributes(attrs, dyn_attributes, i18n_attributes,
                        ns_attributes, drop_ns):
+    # (the namespace is looked up on the attribute itself: the mapping
+    # ``ns_attributes`` has one entry only for attributes written twice)
     drop = {attribute['name']
-            for attribute, (ns, value) in zip(attrs, ns_attributes)
+            for attribute in attrs
+            for ns in (attribute.get('namespace'), )
             if ns in drop_ns or (
                 ns == XMLNS_NS and
                 attribute['value'] in drop_ns)}
